@@ -589,6 +589,12 @@ func (fr *Frame) binop(op token.Token, a, b *Value, rt types.Type, at ssa.Value)
 		}
 		return &Value{T: rt, C: []Term{c.Name("r", App(SInt, "tmod", av, bv))}}
 	case token.AND:
+		if k, ok := litVal(bv); ok && isUnsigned(a.T) {
+			// masking an unsigned value with all the bits of its own type is the identity
+			if _, hi, ok2 := intRange(a.T.Underlying().(*types.Basic)); ok2 && new(big.Int).And(k, hi).Cmp(hi) == 0 {
+				return &Value{T: rt, C: []Term{av}}
+			}
+		}
 		if k, ok := litVal(bv); ok && k.Sign() >= 0 {
 			return &Value{T: rt, C: []Term{c.Name("and", andConst(fr.toUnsigned(av, a.T), k))}}
 		}
